@@ -498,6 +498,24 @@ func (s cleanScn) prepare(root string) error {
 	if err := s.execute(root, Mode{}, 1, true); err != nil {
 		return err
 	}
+	// every recorded slot lies where the documented naming puts it (what is committed today must be found tomorrow by the
+	// same rule - whichever release recorded it)
+	for _, st := range s.Tests {
+		sc := newSlotCounter()
+		for _, c := range st.Calls {
+			if c.New || c.Ghost {
+				break
+			}
+			file, id := sc.slot(c.spec(s.Cfgs), st.Name, c.Call)
+			data, err := os.ReadFile(filepath.Join(root, file))
+			if err != nil {
+				return fmt.Errorf("preparation: %s recorded a %s snapshot, but %q does not exist (directory: %v)", st.Name, c.Call.API, file, keysOfState(snapDir(root)))
+			}
+			if id != "" && !strings.Contains(string(data), "\n["+id+"]\n") {
+				return fmt.Errorf("preparation: %q holds no entry %q after %s recorded it", file, id, st.Name)
+			}
+		}
+	}
 	byCfg := map[int][]staleEntry{}
 	for _, e := range s.Stale {
 		byCfg[e.Cfg] = append(byCfg[e.Cfg], e)
